@@ -134,6 +134,9 @@ def iter_episode(spec, uid="E", shared=None, events=None):
                            "rule": it["rule"], **out, "same": observe(ev, back) == before,
                            "def_same": def_before == def_after,
                            "keep": (key(it["a"]), it["rid"]) in referenced})
+        elif op == "world":
+            # another architecture of the same session: a different module tree / import relation under number a
+            worlds[key(it["a"])[0]] = World(it["world"]["modules"], it["world"]["imports"])
         elif op == "addimport":
             _, render, back = real(it["a"])
             e = (tuple(it["e"][0]), tuple(it["e"][1]))
